@@ -1116,6 +1116,9 @@ def check_always_emits(run, rule):
                 guard_at[id(x)] = g
         emit_nodes = [x for x in ir.walk(f["body"]) if (x.get("k") == "Bin" and store_through_mp(x)) or
                       (x.get("k") in ("MCall", "Call") and (x.get("callee") or {}).get("cls") == ENC and (callee_name(x) or "").startswith("write"))]
+        if not emit_nodes and not emits and not nm.startswith("write") and not any(
+                x.get("k") == "Member" and path(x) and path(x)[:1] == ("this",) for x in ir.walk(f["body"])):
+            continue            # a function of the class that computes a number from its arguments (a head size) is not an emitter
 
         def contradict(g1, g2):
             a1, a2 = conjuncts(g1), conjuncts(g2)
